@@ -119,14 +119,32 @@ fn intervening(rng: &mut Rng, a: &[ReqHeader], b: &[ReqHeader]) -> Vec<Op> {
             from: Who::Master,
             to: Dest::Own,
         }],
-        4 => vec![Op::Request {
-            func: refapp::FUNC_DIRECT_OPERATE_NR,
-            seq: SeqSel::Fixed(rng.below(16) as u8),
-            headers: a.to_vec(),
-            flags: None,
-            from: Who::Master,
-            to: Dest::Bcast(*rng.pick(&[0xFFFFu16, 0xFFFE, 0xFFFD])),
-        }],
+        4 => {
+            // a broadcast of any control function (a broadcast SELECT is not a SELECT of this master's session), possibly
+            // retransmitted
+            let mut v = vec![Op::Request {
+                func: *rng.pick(&[
+                    refapp::FUNC_DIRECT_OPERATE_NR,
+                    refapp::FUNC_DIRECT_OPERATE_NR,
+                    refapp::FUNC_SELECT,
+                    refapp::FUNC_OPERATE,
+                    refapp::FUNC_DIRECT_OPERATE,
+                ]),
+                seq: if rng.bool() {
+                    SeqSel::Fixed(rng.below(16) as u8)
+                } else {
+                    SeqSel::Same
+                },
+                headers: if rng.chance(1, 4) { b.to_vec() } else { a.to_vec() },
+                flags: None,
+                from: Who::Master,
+                to: Dest::Bcast(*rng.pick(&[0xFFFFu16, 0xFFFE, 0xFFFD])),
+            }];
+            for _ in 0..rng.below(3) {
+                v.push(Op::Repeat);
+            }
+            v
+        }
         5 => vec![Op::Request {
             func: *rng.pick(&[
                 refapp::FUNC_SELECT,
